@@ -355,6 +355,7 @@ def oracle(case):
         tot0 = [totals(s) for s in store]
         ok_flows = all(nonneg(s) for s in store)
         kinds = [kind_of(s) for s in store]
+        phs0 = [phases_info(s) for s in store]
         desc = None
         try:
             apply_op(store, op)
@@ -402,7 +403,11 @@ def oracle(case):
                     return f'{where}: negative outlet flow'
         elif name == 'sep':
             _, r, o = op
-            if raised: return None
+            if raised:
+                ok_ph = kinds[r] == 'S' or all(p.lower() in [x.lower() for x in phs0[r][0]] for p in (phs0[o][1] if kinds[o] == 'M' else phs0[o][0]))
+                if covers(store[r], tot0[o]) and ok_ph and r != o:
+                    return f'separate_out:recv={kinds[r]}:other={kinds[o]}:otherpkg={int(pkg_of(store[r]) != pkg_of(store[o]))}: raises {raised} although the receiver lists every chemical and phase of the other stream'
+                return None
             if r != o:
                 exp = {n: tot0[r][n] - tot0[o][n] for n in NAMES}
                 if not same_tot(totals(store[r]), exp):
@@ -440,11 +445,56 @@ def oracle(case):
             return None
     return None
 
+def phases_info(s):
+    """(all phases, phases that hold material)"""
+    arr = phase_totals(s)
+    ph = list(s.phases) if kind_of(s) == 'M' else [s.phase]
+    return ph, [p for p, row in zip(ph, arr) if row.any()]
+
 def case_ids(s):
     return list(s.chemicals.IDs)
 
 def finding_key(case, msg):
     return 'C01:' + msg.split(': ')[0]
 
-CORPUS = []
+def _s(pkg, phase, flows): return {'pkg': pkg, 'multi': False, 'phases': [phase], 'flows': [flows]}
+def _m(pkg, phases, flows): return {'pkg': pkg, 'multi': True, 'phases': phases, 'flows': flows}
+_Z6 = [0.] * 6
+# minimised inputs of the defects found (pending_fixes/C01_<n>_*); they run first in every check
+CORPUS = [
+    # 1: multi-phase inlet of another package into a single-phase receiver (DESIGN 5 #6)
+    {'streams': [_s(0, 'l', _Z6), _s(0, 'l', [1., 0, 0, 0, 0, 0]), _m(1, ['g', 'l'], [[0, 1., 2.], [0, 0, 0]])],
+     'ops': [['mix', 0, [1, 2], False, 0]]},
+    # 2: inlet phase the multi-phase receiver lacks (DESIGN 5 #7)
+    {'streams': [_m(0, ['g', 'l'], [_Z6, _Z6]), _s(0, 'l', [1., 0, 0, 0, 0, 0]), _s(0, 's', [1., 0, 0, 0, 0, 0])],
+     'ops': [['mix', 0, [1, 2], False, 0]]},
+    # 3: one non-empty inlet of another package, multi-phase receiver, no energy balance
+    {'streams': [_m(0, ['g', 'l'], [_Z6, _Z6]), _s(1, 'l', [0, 1., 0])], 'ops': [['mix', 0, [1], False, 0]]},
+    # 4: one-phase MultiStream of another package copied by position
+    {'streams': [_s(0, 'l', _Z6), _m(1, ['g'], [[0, 1., 2.]])], 'ops': [['mix', 0, [1], True, 0]]},
+    # 5: single-phase inlet whose phase the multi-phase receiver lacks, energy balance
+    {'streams': [_m(0, ['g', 'l'], [_Z6, _Z6]), _s(0, 's', [1., 0, 0, 0, 0, 0])], 'ops': [['mix', 0, [1], True, 0]]},
+    # 6: multi-phase receiver and inlet with different phases: stale row kept / rows by position / no remap
+    {'streams': [_m(0, ['g', 'l'], [[0, 0, 1., 0, 0, 0], [0, 0, 0, 2., 0, 0]]), _m(0, ['L', 'g'], [[0, 2., 0, 0, 0, 0], [1., 0, 0, 0, 0, 0]])],
+     'ops': [['mix', 0, [1], True, 0]]},
+    {'streams': [_m(0, ['l', 's'], [_Z6, _Z6]), _m(2, ['L', 'S'], [[0, 0, 0, 0, 0, 1.], [0, 0, 0, 0, 2., 0]])],
+     'ops': [['mix', 0, [1], True, 0]]},
+    # 7: receiver's phase not among the multi-phase inlet's phases
+    {'streams': [_s(0, 'l', [1., 0, 0, 0, 0, 0]), _m(0, ['g', 's'], [[1., 0, 0, 0, 0, 0], [0, 2., 0, 0, 0, 0]])],
+     'ops': [['mix', 0, [1], True, 0]]},
+    # 8: outlet of another package receives nothing
+    {'streams': [_s(1, 'g', [0, 2., 0]), _s(0, 'l', _Z6), _s(2, 'l', _Z6)], 'ops': [['split', 0, 1, 2, 1., True]]},
+    # 9: multi-phase feed, single-phase outlets, no energy balance
+    {'streams': [_m(0, ['g', 'l'], [[2., 0, 0, 0, 0, 0], [1., 4., 0, 0, 0, 0]]), _s(0, 'l', _Z6), _s(0, 'l', _Z6)],
+     'ops': [['split', 0, 1, 2, 0.5, False]]},
+    # 10, 11: separate_out of a multi-phase stream of another package
+    {'streams': [_s(0, 'l', [8., 8., 8., 0, 0, 0]), _m(1, ['g', 'l'], [[0, 1., 0], [1., 0, 2.]])], 'ops': [['sep', 0, 1]]},
+    {'streams': [_m(0, ['L', 'S'], [[8., 8., 0, 0, 0, 0], [0, 0, 8., 0, 0, 0]]), _m(2, ['L', 'S'], [[0, 0, 0, 0, 0, 1.], [0, 0, 0, 2., 0, 0]])],
+     'ops': [['sep', 0, 1]]},
+    # 12: receiver among the inlets, temperature solve fails, fallback to multi-phase
+    {'streams': [_s(0, 's', [2., 0, 0.25, 0, 0, 1.]), _s(0, 'g', [1., 0, 0, 0, 0, 0])], 'ops': [['mix', 0, [0, 1], True, 1]]},
+    # mix then separate (same and other package, self inlet)
+    {'streams': [_s(0, 'l', [1., 2., 0, 0, 0, 0]), _s(1, 'g', [4., 0.5, 0]), _m(2, ['g', 'l'], [[0, 0, 0, 0, 1., 0], [0, 0, 0, 8., 0, 3.]])],
+     'ops': [['mix', 0, [0, 1, 2, 0], False, 0], ['sep', 0, 2]]},
+]
 WITNESSES = []
